@@ -242,6 +242,11 @@ def run(chk):
             continue
         if k != G.klass(ri) or (k == "ok" and vlib.canon(cm) != vlib.canon(G.canon_impl(ri))):
             dis.append({"case": cases[i], "impl": ri, "model": [k, cm]})
+    # how often the hypothesis of C15_k_copies_scale_wrap (no_overflow_b) holds on the tested k-copies inputs
+    nsel = [i for i in sel if sources[index[i][0]]["seqs"][index[i][1]][0] in ("one", "copies2", "copies3")][:40 if quick else 400]
+    nov = G.run_model(chk.pid, [cases[i] for i in nsel], fn="run_no_overflow", shard_size=40)
+    dist["no_overflow_checked"] = len(nsel)
+    dist["no_overflow_holds"] = sum(1 for v in nov if v is True)
     for d in dis[:3]:
         d.update({"kind": "correspondence", "engine": "gcno", "theorems_at_stake": "C15_* (Model/GcnoRead.v, GcnoCount.v no longer describe Gcno::compute)"})
         chk.violation(d, has_input=False, tag="corr")
